@@ -32,11 +32,17 @@ def match_known(findings, pid, key):
     return None
 
 
+ENV_UNITS = 12          # units re-run per environment variant
+ENV_VARIANTS = [("TZ=America/Los_Angeles", {"TZ": "America/Los_Angeles"}),
+                ("TZ=Asia/Tokyo", {"TZ": "Asia/Tokyo"}),
+                ("python -O", {"PYTHONOPTIMIZE": "1"})]
+
+
 def write_replay(pid, v, tier, seed, history_dependent=False):
     d = os.path.join(VERIF, "replays", pid)
     os.makedirs(d, exist_ok=True)
     body = dict(property=pid, key=v["key"], case=v["case"], msg=v["msg"],
-                unit=v.get("unit"), history_dependent=history_dependent,
+                unit=v.get("unit"), history_dependent=history_dependent, env_variant=v.get("env_variant"),
                 observed=v.get("observed"), expected=v.get("expected"),
                 tier=tier, seed=seed,
                 replay_cmd="./check %s --replay <this file>" % pid)
@@ -98,6 +104,8 @@ def main(argv):
     ap.add_argument("--jobs", type=int, default=int(os.environ.get("VERIF_JOBS", "0")) or (os.cpu_count() or 4))
     ap.add_argument("--no-confirm", action="store_true")
     ap.add_argument("--only", help="substring filter on unit descriptors (debug; marks run incomplete)")
+    ap.add_argument("--subrun", help="internal: environment variant run on a subset of the units (prints one SUBRUN json line)")
+    ap.add_argument("--stride", type=int, default=1)
     a = ap.parse_args(argv)
     pid = a.pid.upper()
     tier = a.tier
@@ -124,6 +132,11 @@ def main(argv):
     if a.replay:
         with open(a.replay) as f:
             body = json.load(f)
+        ev = body.get("env_variant")
+        if ev and any(os.environ.get(k) != val for k, val in dict(ENV_VARIANTS)[ev].items()):
+            env = dict(os.environ)
+            env.update(dict(ENV_VARIANTS)[ev])
+            return subprocess.run([sys.executable, "-m", "mc.runner"] + list(argv), cwd=VERIF, env=env).returncode
         from mc import explore
         explore._init_worker_inproc(mod)
         if os.environ.get("VERIF_REPLAY_QUIET") == "1":
@@ -173,6 +186,8 @@ def main(argv):
     if a.only:
         units = [u for u in units if a.only in json.dumps(u)]
         filtered = True
+    if a.subrun:
+        units = units[::max(1, a.stride)]
     supervised = getattr(mod, "SUPERVISED", False)
     if supervised:
         res, crashes = explore.run_supervised(mod, units, a.jobs,
@@ -198,6 +213,48 @@ def main(argv):
             res.current_unit = None
     wall = time.time() - t0
 
+    if a.subrun:
+        out = dict(variant=a.subrun, units=len(units), evaluations=res.evaluations, incomplete=res.incomplete[:3],
+                   violations=[dict(lst[0], n=len(lst)) for _, lst in sorted(res.violations.items())])
+        sys.stdout.write("SUBRUN " + json.dumps(out, default=repr) + "\n")
+        return 0
+
+    # ---- environment variants: a subset of the units is run again in interpreters whose environment answers
+    # differently (local time zone west / east of Greenwich, python -O): a result must not depend on them
+    env_counts = {}
+    if not filtered and os.environ.get("VERIF_ENV_VARIANTS", "1") != "0" and getattr(mod, "ENV_VARIANTS", True):
+        nq = len(units) if tier == "quick" else len(mod.units("quick", seed))
+        stride = max(1, -(-nq // ENV_UNITS))
+        for vname, venv in ENV_VARIANTS:
+            env = dict(os.environ)
+            env.update(venv)
+            # (always units of the quick tier: the variants answer "does the environment matter", not "how deep")
+            cmd = [sys.executable, "-m", "mc.runner", pid, "--tier", "quick", "--jobs", str(a.jobs), "--subrun", vname,
+                   "--stride", str(stride), "--no-confirm"]
+            try:
+                r = subprocess.run(cmd, cwd=VERIF, env=env, capture_output=True, text=True, timeout=3 * 3600)
+                line = [l for l in r.stdout.splitlines() if l.startswith("SUBRUN ")]
+                sub = json.loads(line[-1][7:]) if line else None
+            except Exception as e:
+                sub = None
+                r = None
+            if sub is None:
+                res.incomplete.append("environment variant %s did not complete: %s" % (
+                    vname, (r.stdout + r.stderr)[-500:] if r is not None else "no output"))
+                continue
+            env_counts[vname] = sub["evaluations"]
+            res.counters["env.%s.units" % vname] = sub["units"]
+            res.counters["env.%s.evaluations" % vname] = sub["evaluations"]
+            for inc in sub["incomplete"]:
+                res.incomplete.append("environment variant %s: %s" % (vname, inc))
+            for v in sub["violations"]:
+                key = "%s:env=%s" % (v["key"], vname)
+                if v["key"] in res.violations:
+                    continue            # fails in the default environment too: reported there
+                res.violations.setdefault(key, []).append(dict(v, key=key, env_variant=vname,
+                    msg="[only with %s] %s" % (" ".join("%s=%s" % kv for kv in sorted(venv.items())), v["msg"])))
+                res.nviol += 1
+
     findings = load_findings()
     known_lines, viol_lines, flaky = [], [], []
     history_dep = []
@@ -216,6 +273,8 @@ def main(argv):
         if not a.no_confirm and getattr(mod, "CONFIRM", True):
             env = dict(os.environ)
             env["VERIF_REPLAY_QUIET"] = "1"
+            if v.get("env_variant"):
+                env.update(dict(ENV_VARIANTS)[v["env_variant"]])
             if isinstance(v["case"], dict) and (v["case"].get("unit_crash") or v["case"].get("retained")):
                 confirmed = False       # only the whole unit can be replayed
             else:
